@@ -10,6 +10,34 @@ global size_of usize == 8;
 
 //@type src/lex.rs struct TokenLocation
 
+// ---- the lexer state
+//@type src/lex.rs struct Lex
+impl Lex {
+    spec fn txt(&self) -> Seq<char> { xtext(self.buf) }
+    // both cursors sit on character boundaries inside the text, the token start not behind the read position
+    spec fn ok(&self) -> bool {
+        &&& is_boundary(self.txt(), self.pos as int) && is_boundary(self.txt(), self.start_pos as int)
+        &&& self.start_pos <= self.pos <= blen(self.txt())
+        &&& blen(self.txt()) <= isize::MAX
+    }
+    // character index of the read position
+    spec fn cidx(&self) -> int { choose|k: int| 0 <= k <= self.txt().len() && off(self.txt(), k) == self.pos }
+}
+// `buf[pos..].chars().next()` (str slicing + Chars): ASSUMED: the character that starts at byte `pos`, none at the end;
+// slicing panics unless `pos` is a character boundary inside the text
+#[verifier::external_body]
+fn verif_char_at(b: &Xstr, pos: usize) -> (r: Option<char>)
+    requires is_boundary(xtext(*b), pos as int), pos <= blen(xtext(*b))
+    ensures forall|k: int| 0 <= k <= xtext(*b).len() && off(xtext(*b), k) == pos ==> r == (if k < xtext(*b).len() { Some(xtext(*b)[k]) } else { None::<char> })
+{ unimplemented!() }
+
+impl Lex {
+//@use lex.fns Lex::peek_char
+//@use lex.fns Lex::take_char
+//@use lex.fns Lex::skip_line
+//@use lex.fns Lex::last_substr
+}
+
 //@use lex.fns ::token_filename
 //@use lex.fns ::token_location
 
